@@ -44,6 +44,9 @@ type Query struct {
 	Page   int     `json:"page"`            // page size (max-keys / max-uploads / max-parts)
 	Start  *string `json:"start,omitempty"` // marker / start-after / key-marker / part-number-marker of the first request
 	Upload int     `json:"upload,omitempty"`
+	// RepeatStart (via v2): follow-up requests carry start-after next to the continuation token, as the AWS SDK
+	// paginators do (all original parameters are repeated); the token takes precedence.
+	RepeatStart bool `json:"repeatStart,omitempty"`
 }
 
 type Case struct {
@@ -509,6 +512,9 @@ func walkObjects(st storage.Storage, h http.Handler, q Query, maxPages int) (w w
 				}
 			} else {
 				v.Set("continuation-token", *marker)
+				if q.RepeatStart && q.Start != nil {
+					v.Set("start-after", *q.Start)
+				}
 			}
 			var x xmlListBucket
 			if e := httpGet(h, "/"+bucket, v, &x); e != "" {
@@ -1147,6 +1153,7 @@ func gen(t *rapid.T, env *ev.Env) Case {
 			// property, so such markers are not generated.
 			if q.Delim == "" || !strings.Contains(m, q.Delim) {
 				q.Start = sp(m)
+				q.RepeatStart = rapid.Bool().Draw(t, "repeatStart")
 			}
 		}
 		c.Queries = append(c.Queries, q)
